@@ -57,6 +57,18 @@ impl Signature {
         Signature::from_der_impl(&bytes)
     }
 
+    /// k256's recovery turns the recovered point into a `VerifyingKey` with an `unwrap`, which panics when that point
+    /// is the identity (s*R == z*G). Such a signature has no signer, so callers must refuse it first.
+    fn recovers_identity(recoverable_sig: &recoverable::Signature, is_y_odd: bool, digest_bytes: &FieldBytes) -> bool {
+        use k256::elliptic_curve::{ops::Reduce, DecompressPoint};
+        let z = <k256::Scalar as Reduce<k256::U256>>::from_be_bytes_reduced(*digest_bytes);
+        let big_r = k256::AffinePoint::decompress(&recoverable_sig.r().to_bytes(), (is_y_odd as u8).into());
+        if big_r.is_none().into() {
+            return false;
+        }
+        k256::ProjectivePoint::from(big_r.unwrap()) * *recoverable_sig.s() == k256::ProjectivePoint::GENERATOR * z
+    }
+
     pub fn get_public_key(&self, message: &[u8], hash_algo: SigningHash) -> Result<PublicKey, BSVErrors> {
         let recovery = match &self.recovery {
             Some(v) => v,
@@ -73,6 +85,9 @@ impl Signature {
 
         let recoverable_sig = recoverable::Signature::new(&self.sig, k256_recovery)?;
         let message_digest = get_hash_digest(hash_algo, message);
+        if Signature::recovers_identity(&recoverable_sig, recovery.is_y_odd, &digest::FixedOutput::finalize_fixed(message_digest.clone())) {
+            return Err(BSVErrors::PublicKeyRecoveryError("Signature does not recover to a public key".into(), ecdsa::Error::new()));
+        }
         let verify_key = match recoverable_sig.recover_verify_key_from_digest(message_digest) {
             Ok(v) => v,
             Err(e) => {
@@ -104,6 +119,9 @@ impl Signature {
         let k256_recovery = id.try_into().map_err(|e| BSVErrors::PublicKeyRecoveryError("".into(), e))?;
 
         let recoverable_sig = recoverable::Signature::new(&self.sig, k256_recovery)?;
+        if Signature::recovers_identity(&recoverable_sig, recovery.is_y_odd, GenericArray::from_slice(digest)) {
+            return Err(BSVErrors::PublicKeyRecoveryError("Signature does not recover to a public key".into(), ecdsa::Error::new()));
+        }
         let verify_key = match recoverable_sig.recover_verify_key_from_digest_bytes(GenericArray::from_slice(digest)) {
             Ok(v) => v,
             Err(e) => {
